@@ -43,7 +43,8 @@ PROPS = {
                 "combinations x link name; all 2^16 Windows masks, actions 0..8, 2^17 subscription masks; xSupports on all 2^9 sets for inotify, kqueue, "
                 "Windows, FEN. non-trivial = a combination of >=2 flags/operations (distinct by mask)",
                 [dict(pkg="e3", test="TestC15Inotify", replay_test="TestReplayC15Inotify", single=True),
-                 dict(pkg="winprop", test="TestC15Windows", replay_test="TestReplayC15Windows", gen="win", single=True)],
+                 dict(pkg="winprop", test="TestC15Windows", replay_test="TestReplayC15Windows", gen="win", single=True),
+                 dict(pkg="kq", test="TestC15Kqueue", replay_test="TestReplayC15Kqueue", gen="kq", single=True)],
                 1, 1, exhaustive=True,
                 assumptions=["the documented tables in the harness (written from the README/godoc and inotify(7)/kqueue(2)/Win32 docs) are the specification",
                              "/proc/self/fdinfo shows the mask the kernel actually holds for a mark",
@@ -147,3 +148,33 @@ PROPS["C19"] = e1("TestC19", "cases drawn by rapid (GenC19): three candidate roo
                   "4-30 ops: mkdir one level (followed by sync), rename of an inner directory within its tree (sync), rmdir, file create/write/chmod/unlink/move at any depth in bursts (25% plugged), Remove of one of several roots. "
                   "Oracle: shadow watch on every covered directory + the harness's own true-path bookkeeping. non-trivial = an inner directory rename or a root removal happened and >=2 events were delivered; distinct = skeleton")
 MANIFEST_TEXT["C19"] = _e1("Exploration of the unreleased recursive mode (enabled through the verif hook): expected Name = root spelling + true current relative path, kept by the harness through renames; coverage of new directories from their Create on; Remove(root) silences exactly that tree. mkdir -p bursts, cross-boundary moves and root renames are excluded as in the property.")
+
+
+E4_ASSUME = [
+    "the kqueue backend is the working-tree source compiled on Linux against a simulated kqueue/syscall layer (harness/kq/unix); behaviour of a real BSD kernel is not reached",
+    "the notifying filesystem layer raises NOTE_* as FreeBSD's vop_*_post hooks do; it is validated on every run by replaying the repository's testdata scripts against their recorded freebsd/kqueue expectations (count in traces_validated_against_impl)",
+    "hard links are left out (NOTE_LINK vs NOTE_DELETE on a multiply linked vnode differs across BSDs); FIFOs and symlinks get names of their own (a name changing kind from directory to FIFO makes the backend block in open(2))",
+    "quiescence is exact: the simulator knows when the reader sleeps in kevent() with nothing active; bursts are built by holding delivery",
+]
+
+
+def e4(test, rule, quick, thorough):
+    return dict(pkg="kq", test=test, replay_test="TestReplayK", gen="kq", level="exploration", rule=rule, assumptions=E4_ASSUME,
+                quick=dict(checks=quick, shards=1, cap_s=900), thorough=dict(checks=thorough, shards=16, cap_s=3300),
+                crash_is_violation=True, vlimit_kb=8 * 1024 * 1024, min_evaluations=dict(quick=quick, thorough=thorough * 16))
+
+
+KQ_RULE = ("cases drawn by rapid (GenK): watched directories d0 (spelled d0, ./d0/ or through the symlink ld0) and d1 with 0-6 pre-existing entries, 3-25 ops from create/write/chmod/truncate/unlink/"
+           "mkdir/rmdir/rename (plain, overwrite, in, out, between watched dirs)/rm -r/rename or removal of a whole watched directory/Add/Remove, 30% of segments as held bursts of 2-8 ops, ending in remove-all and/or Close; ")
+PROPS["C17"] = e4("TestC17", KQ_RULE + "C17 adds FIFOs and symlinks (to a file, to a directory) as directory contents. Oracle at every quiescent point: descriptors opened and not closed through the simulated syscall layer == descriptors in the watch table; "
+                  "no internal watch whose directory is no longer watched; WatchList within the user's paths; after remove-all: no vnode descriptor, no knote, all tables empty; after Close and reader exit: no descriptor at all. "
+                  "non-trivial = >=1 Add and >=1 watch-ending filesystem op; distinct = case text", 300, 1500)
+MANIFEST_TEXT["C17"] = dict(engine="E4", level_text="Exploration relative to the simulator: every descriptor opened through the simulated open(2) is tracked until close(2); tables and descriptors are compared after every quiescent point, after remove-all and after Close.",
+                            note="trusted: the simulated kqueue (knotes per (kq, ident, filter), EV_CLEAR accumulation, FIFO activation order, knote removal on close, EVFILT_READ on the close pipe) and the NOTE_* raising layer, validated against the recorded kqueue expectations of the repository's 39 applicable testdata scripts",
+                            technique="property-based testing (rapid) of the kqueue backend on a simulated kernel with resource-accounting oracle")
+PROPS["C18"] = e4("TestC18", KQ_RULE + "Oracle: quiescent segments - per-op specification table (create->Create, write->Write, chmod/truncate->Chmod, unlink/rmdir->Remove, rename->Rename old + Create new (+ Remove of an overwritten entry), "
+                  "rm -r of a watched dir -> Remove for it and each watched entry, unwatched places -> nothing), names under the user's spelling; held bursts - exactly one Create per entry that is new (or has a new inode) at the next quiescent point, none otherwise; "
+                  "whole history - per name, Create only after Remove/Rename; nothing on Errors; the 39 testdata scripts reproduce their recorded expectations. non-trivial = >=5 events delivered; distinct = case text", 300, 1500)
+MANIFEST_TEXT["C18"] = dict(engine="E4", level_text="Exploration relative to the simulator: exact per-operation event table in quiescent mode, Create-count and alternation invariants in bursts, plus reproduction of the repository's recorded kqueue expectations on every run.",
+                            note="trusted: as C17; the specification table in harness/kq/hist_test.go is written from the property statement and the recorded expectations",
+                            technique="property-based testing (rapid) of the kqueue backend on a simulated kernel with per-operation specification-table oracle")
